@@ -208,6 +208,22 @@ func isRoleRoot(la *LockAnalysis, f *ssa.Function) bool {
 			if r == f {
 				return true
 			}
+			// a thin wrapper started as the goroutine (go func() { defer wg.Done(); w.process() }()): it has no loop of
+			// its own and calls f directly
+			thin, calls := true, false
+			for _, b := range r.Blocks {
+				if inLoop(b) {
+					thin = false
+				}
+				for _, ins := range b.Instrs {
+					if cl, ok := ins.(*ssa.Call); ok && cl.Call.StaticCallee() == f {
+						calls = true
+					}
+				}
+			}
+			if thin && calls {
+				return true
+			}
 		}
 	}
 	return false
